@@ -18,7 +18,7 @@
    BatchStart events, which is what the harness compares with the real code. *)
 From Coq Require Import List Arith NArith Bool.
 Import ListNotations.
-Require Import Aiuti.Case_Batcher Aiuti.Case_Batcher_Sound Aiuti.Batcher Aiuti.BatcherLimits Aiuti.BatcherTime.
+Require Import Aiuti.Case_Batcher Aiuti.Case_Batcher_Sound Aiuti.Case_Batcher_Basic Aiuti.Batcher Aiuti.BatcherLimits Aiuti.BatcherTime Aiuti.BatcherOrder.
 
 (* Every batch handed to the batch function is non-empty and no larger than
    lim = the largest max_batch_size that was in force when one of its items
@@ -124,6 +124,24 @@ Theorem dispatch_deadline :
 Proof. exact dispatch_deadline_lemma. Qed.
 Print Assumptions dispatch_deadline.
 
+(* "Calls arriving less than batch_timeout apart share a batch until it is full":
+   a batch is closed only because it is full or its batch_timeout expired.  After any
+   event list: (1) every item of a LATER batch and (2) every item of the open batch
+   arrived at or after the spawn instant sp1 of an earlier batch its1; and (3) if its1
+   was not full when its last item x arrived, sp1 = arrival of x + batch_timeout.  So a
+   call arriving less than batch_timeout after x, while the batch of x is not full,
+   is never put into a different batch. *)
+Theorem split_only_when_full_or_timed_out :
+  forall c evs, cfg_ok c -> Forall ev_ok evs ->
+  let s := snd (run c evs) in
+  (forall pre its1 sp1 post its2 sp2 y,
+     g_spawn s = pre ++ (its1, sp1) :: post -> In (its2, sp2) post -> In y its2 -> (sp1 <= it_t y)%N) /\
+  (forall its1 sp1 y, In (its1, sp1) (g_spawn s) -> In y (coll_items s) -> (sp1 <= it_t y)%N) /\
+  (forall its1 sp1 x, In (its1, sp1) (g_spawn s) -> last_of its1 x -> length its1 < it_max x ->
+     sp1 = (it_t x + c_bt c)%N).
+Proof. exact split_only_when_full_or_timed_out_lemma. Qed.
+Print Assumptions split_only_when_full_or_timed_out.
+
 (* Why a batch starts when it does — for ANY state s and event e: a BatchStart
    emitted by the macro step is for a batch that was spawned in this same step at
    this same instant t (slot free at once), or e is a batch-function event
@@ -146,7 +164,27 @@ Theorem clock_exact :
 Proof. exact clock_exact_lemma. Qed.
 Print Assumptions clock_exact.
 
-(* Monitor soundness, PARTIAL.  ok_C10 (Case_Batcher.v) judges the observed trace
+(* The basic sub-monitor [ok_basic] (a conjunct of ok_C04, ok_C10 and ok_C11: per macro
+   step no TaskDied, every completion carries the script clock, no caller completes twice,
+   every batch is non-empty, carries no key twice and does not start in the script's
+   future) is COMPLETE — it accepts the canonical trace of the model for ALL
+   configurations and ALL event lists, so it cannot raise a false alarm on a case where
+   the implementation agrees with the model — and SOUND. *)
+Theorem monitor_basic_complete :
+  forall c evs w, cfg_ok c -> Forall ev_ok evs ->
+  ok_basic (BCase c evs (map canon (fst (run c evs))) w) = true.
+Proof. exact ok_basic_complete. Qed.
+Print Assumptions monitor_basic_complete.
+
+Theorem monitor_basic_sound :
+  forall c evs observed w, ok_basic (BCase c evs observed w) = true ->
+  forall os, In os observed ->
+    ~ In TaskDied os /\ NoDup (map (fun d => fst (fst d)) (dones_of os)) /\
+    forall b items t, In (BatchStart b items t) os -> 1 <= length items /\ NoDup (map fst items).
+Proof. exact ok_basic_sound. Qed.
+Print Assumptions monitor_basic_sound.
+
+(* Soundness of the full monitor, PARTIAL.  ok_C10 (Case_Batcher.v) judges the observed trace
    independently of the model.  Proved: acceptance implies every observed batch is
    non-empty.  NOT proved as theorems: the FIFO / size-limit / deadline / concurrency
    conjuncts of check_start are decided against the monitor's own specification queue
